@@ -249,9 +249,18 @@ class RSite:
         return s
 
 
+def origin_base(key):
+    """origin key ('a.test', 'a.test:81', 'a.test#443' = the same host over https) -> URL prefix"""
+    return 'https://' + key[:-4] if key.endswith('#443') else 'http://' + key
+
+
+def request_origin(q):
+    return q['host'] + '#443' if q.get('port') == 443 else q['host']
+
+
 def gen_rsite(rng, big=None):
     s = RSite()
-    hosts = ['a.test'] + (['a.test:81'] if rng.random() < 0.5 else [])
+    hosts = ['a.test'] + (['a.test:81'] if rng.random() < 0.5 else []) + (['a.test#443'] if rng.random() < 0.35 else [])
     names = ['/', '/a', '/b', '/private/x', '/private/y', '/pub/z', '/p.png', '/nf', '/only-nf']
     for h in hosts:
         kind = rng.choice(['ok', 'ok', 'ok', 'missing', 'error', 'redirect', 'forbidden'])
@@ -275,7 +284,7 @@ def gen_rsite(rng, big=None):
                 text = 'User-agent: *\n' + pad + 'Disallow: /private\nDisallow: /b\n'
         pages = {}
         for p in names:
-            links = [q if rng.random() < 0.8 else 'http://%s%s' % (rng.choice(hosts), q)
+            links = [q if rng.random() < 0.8 else '%s%s' % (origin_base(rng.choice(hosts)), q)
                      for q in rng.sample(names, rng.randint(1, 4)) if q != '/only-nf']
             if p == '/nf':
                 pages[p] = {'kind': 'html', 'links': ['/only-nf', '/a'], 'inline': ['/p.png'], 'meta': rng.choice(['nofollow', 'noindex, nofollow', 'NOFOLLOW']),
@@ -364,14 +373,16 @@ def run_one(args):
         extra = ['-r', '-l', '0', '--tries', '2']
         if ua:
             extra += ['--user-agent', ua]
-        starts = ['http://%s/' % h for h in site.origins]
-        res = appsim.run_crawl(starts, site.to_server(), seed=seed, concurrent=conc, extra=extra, ports=(80, 81))
+        starts = ['%s/' % origin_base(h) for h in site.origins]
+        if any(h.endswith('#443') for h in site.origins):
+            extra += ['--no-check-certificate']      # https runs over the in-memory transport without TLS
+        res = appsim.run_crawl(starts, site.to_server(), seed=seed, concurrent=conc, extra=extra, ports=(80, 81, 443))
     finally:
         pr.RobotsTxtChecker.can_fetch = orig_can
         pr.RobotsTxtChecker.fetch_robots_txt = orig_fetch
         rt.RobotsTxtPool.load_robots_txt = orig_load
         pw.WebProcessorSession._fetch_one = orig_fetch_one
-    return {'obs': obs, 'requests': [{'host': r['host'], 'target': r['target'], 'ua': r['headers'].get('user-agent', '')}
+    return {'obs': obs, 'requests': [{'host': r['host'], 'port': r['port'], 'target': r['target'], 'ua': r['headers'].get('user-agent', '')}
                                      for r in res.requests],
             'rows': res.rows, 'hung': res.hung, 'exit_code': res.exit_code, 'error': res.error}
 
@@ -424,7 +435,9 @@ def gate_line(r):
 def judge(ctx, r, reply, case, site):
     nontriv = any(e['ev'] == 'robots-fetch' for e in r['obs']) and any(e['ev'] == 'verdict' for e in r['obs'])
     kinds = sorted({o['robots']['kind'] for o in site.origins.values()})
-    ctx.case(json.dumps(case, sort_keys=True), nontrivial=nontriv, tags=['gate:robots=' + '+'.join(kinds), 'gate:conc=%d' % case['conc']])
+    ctx.case(json.dumps(case, sort_keys=True), nontrivial=nontriv,
+             tags=['gate:robots=' + '+'.join(kinds), 'gate:conc=%d' % case['conc'], 'gate:origins=%d%s' % (
+                 len(site.origins), '+https-same-host' if any(h.endswith('#443') for h in site.origins) else '')])
     if not reply.startswith('ok'):
         ctx.disagree('gate', case, reply, 'observed sequence of %d events' % len(r['obs']))
     if r['hung'] or r['error']:
@@ -433,14 +446,14 @@ def judge(ctx, r, reply, case, site):
     # ---- oracle on the server log
     first_seen = set()
     for q in r['requests']:
-        host = q['host'] if ':' in q['host'] or True else q['host']
-        o = site.origins.get(q['host'])
+        ok_ = request_origin(q)
+        o = site.origins.get(ok_)
         if o is None:
             continue
-        if q['host'] not in first_seen:
-            first_seen.add(q['host'])
+        if ok_ not in first_seen:
+            first_seen.add(ok_)
             if q['target'] != '/robots.txt':
-                ctx.fail('robots-not-first', 'origin', case, 'first request to %s is %s' % (q['host'], q['target']))
+                ctx.fail('robots-not-first', 'origin', case, 'first request to %s is %s' % (origin_base(ok_), q['target']))
         rb = o['robots']
         if q['target'] in ('/robots.txt', '/r2.txt'):
             continue
@@ -460,8 +473,8 @@ def judge(ctx, r, reply, case, site):
             ctx.fail('robots-refetched', 'origin', case, 'robots.txt of %s fetched again after it was obtained' % e['origin'])
     # nofollow
     for host, o in site.origins.items():
-        if any(q['host'] == host and q['target'] == '/nf' for q in r['requests']):
-            if any(q['host'] == host and q['target'] == '/only-nf' for q in r['requests']):
+        if any(request_origin(q) == host and q['target'] == '/nf' for q in r['requests']):
+            if any(request_origin(q) == host and q['target'] == '/only-nf' for q in r['requests']):
                 ctx.fail('nofollow-ignored', 'html-scraper', case, '/only-nf is linked only from a page declaring nofollow but was requested')
 
 
